@@ -35,6 +35,16 @@ func (g *G) pick(xs []string) string { return xs[g.R.Intn(len(xs))] }
 
 // Doc builds a random well-formed document with up to max nodes (incl. root).
 func (g *G) Doc(max int) *vdoc.Doc {
+	// one document in eight has an unusual SHAPE: a parent with 10-13 children (two-digit sibling positions)
+	// or a chain 6-9 levels deep; bounded enumeration never reaches these
+	if max >= 12 {
+		switch g.R.Intn(16) {
+		case 0:
+			return g.wideDoc()
+		case 1:
+			return g.deepDoc()
+		}
+	}
 	n := 2 + g.R.Intn(max-1)
 	nodes := []vdoc.Node{{K: "root"}}
 	// right-most path of element/root ids (1-based)
@@ -84,6 +94,61 @@ func (g *G) Doc(max int) *vdoc.Doc {
 			attrOpen = 0
 		}
 	}
+	d, err := vdoc.New(nodes)
+	if err != nil {
+		panic(err)
+	}
+	return d
+}
+
+// wideDoc: root / a / (10..13 children of mixed kinds, some with a child or an attribute).
+func (g *G) wideDoc() *vdoc.Doc {
+	nodes := []vdoc.Node{{K: "root"}, {K: "elem", N: g.pick(g.Elems), P: 1}}
+	kids := 10 + g.R.Intn(4)
+	last := ""
+	for i := 0; i < kids; i++ {
+		switch r := g.R.Intn(10); {
+		case r < 6 || last == "text":
+			nodes = append(nodes, vdoc.Node{K: "elem", N: g.pick(g.Elems), P: 2})
+			id := len(nodes)
+			last = "elem"
+			if g.R.Intn(4) == 0 {
+				nodes = append(nodes, vdoc.Node{K: "attr", N: g.pick(g.Attrs), P: id, V: g.pick(g.Texts)})
+			}
+			if g.R.Intn(4) == 0 {
+				nodes = append(nodes, vdoc.Node{K: "text", P: id, V: g.pick(g.Texts)})
+			}
+		case r < 8:
+			nodes = append(nodes, vdoc.Node{K: "text", P: 2, V: g.pick(g.Texts)})
+			last = "text"
+		default:
+			nodes = append(nodes, vdoc.Node{K: "comment", P: 2, V: "k"})
+			last = "comment"
+		}
+	}
+	d, err := vdoc.New(nodes)
+	if err != nil {
+		panic(err)
+	}
+	return d
+}
+
+// deepDoc: a chain of 6..9 nested elements, with a sibling or a text here and there.
+func (g *G) deepDoc() *vdoc.Doc {
+	nodes := []vdoc.Node{{K: "root"}}
+	p := 1
+	depth := 6 + g.R.Intn(4)
+	for i := 0; i < depth; i++ {
+		if i > 0 && g.R.Intn(3) == 0 {
+			nodes = append(nodes, vdoc.Node{K: "elem", N: g.pick(g.Elems), P: p}) // an elder sibling of the chain
+		}
+		nodes = append(nodes, vdoc.Node{K: "elem", N: g.pick(g.Elems), P: p})
+		p = len(nodes)
+		if g.R.Intn(4) == 0 {
+			nodes = append(nodes, vdoc.Node{K: "attr", N: g.pick(g.Attrs), P: p, V: g.pick(g.Texts)})
+		}
+	}
+	nodes = append(nodes, vdoc.Node{K: "text", P: p, V: g.pick(g.Texts)})
 	d, err := vdoc.New(nodes)
 	if err != nil {
 		panic(err)
@@ -227,6 +292,9 @@ func (g *G) BoolPred(depth int) *xast.Expr {
 // PosPred draws a positional predicate of the C03 grammar.
 func (g *G) PosPred() *xast.Expr {
 	n := int64(1 + g.R.Intn(3))
+	if g.R.Intn(6) == 0 {
+		n = int64(9 + g.R.Intn(4)) // two-digit positions (wide documents)
+	}
 	ops := []string{"=", "!=", "<", "<=", ">", ">="}
 	switch g.R.Intn(6) {
 	case 0, 1:
